@@ -315,7 +315,8 @@ func Parallel(fs ...func()) {
 }
 func Scheduler(budget int) {}
 
-func Snapshot(ptr interface{}) interface{}   { notNative("Snapshot"); return nil }
-func SameAs(snapshot, ptr interface{}) bool  { notNative("SameAs"); return false }
-func Quiesce()                               { notNative("Quiesce") }
-func OmitAVP(msg interface{}, member string) { notNative("OmitAVP") }
+func Snapshot(ptr interface{}) interface{}       { notNative("Snapshot"); return nil }
+func SameAs(snapshot, ptr interface{}) bool      { notNative("SameAs"); return false }
+func Quiesce()                                   { notNative("Quiesce") }
+func OmitAVP(msg interface{}, member string)     { notNative("OmitAVP") }
+func HTTPSetBody(c interface{}, obj interface{}) { notNative("HTTPSetBody") }
